@@ -58,7 +58,13 @@ def programs(tier: str) -> tuple[list[dict], dict]:
             continue
         for i in p["inputs"]:
             i.pop("np", None)
-        progs.append({"id": f"rand/{k}", "kind": "json", "prog": p})
+        cand = {"id": f"rand/{k}", "kind": "json", "prog": p}
+        try:        # only programs pytato accepts (the generator is NumPy-driven)
+            proclib.build_outputs(cand)
+        except Exception:       # noqa: BLE001
+            stats["random_rejected"] = stats.get("random_rejected", 0) + 1
+            continue
+        progs.append(cand)
         k += 1
     stats["random_programs"] = k
     if tier == "thorough":
